@@ -1,59 +1,88 @@
-/- preservation of InvE: the executor stored in a core nobody else can reach -/
+/- preservation of InvE: the executor stored in an awaited core that is not a Task is never written -/
 import YaclibModel.Proofs.CoroD3
 namespace Yaclib.Coro
-
-theorem cellsAfter_cexec (s : State) (c : Ctx) (i : Nat) :
-    (cellsAfter s c i).cexec = if c = .cell i then s.exec else (s.cells i).cexec := by
-  cases c with
-  | inl => simp [cellsAfter]
-  | exec e => simp [cellsAfter]
-  | cell j =>
-      simp only [cellsAfter, upd]
-      by_cases h : i = j
-      · subst h; simp
-      · simp [h]; intro h'; exact absurd h'.symm h
 
 theorem upd_cexec_word (s : State) (j i : Nat) (wd : Word) :
     ((s.setWord j wd).cells i).cexec = (s.cells i).cexec := by
   simp only [State.setWord, upd]; split <;> simp_all
 
-theorem cbDone_wake_cell (k : AKind) (j e j' : Nat) (h : cbDone k j e = .wake (.cell j')) : j' = j := cbDone_cell k j e j' h
-theorem selfDone_ne_wake_cell (k : AKind) (j : Nat) : selfDone k ≠ .wake (.cell j) := selfDone_not_cell k j
-theorem subNext_ne_wake_cell (k : AKind) (j : Nat) : subNext k ≠ .wake (.cell j) := subNext_ne_wake k _
-
 theorem setWord_resumed (s : State) (j : Nat) (wd : Word) : (s.setWord j wd).resumed = s.resumed := rfl
 
+theorem wft_lazy {w : Workload} {s : State} {op : Op} {rest : List Op} {j : Nat} (hwt : w.WFT) (ha : InvA w s)
+    (ht : s.todo = op :: rest) (hj : j ∈ op.cells) : (op.kind = .task ↔ (w.cell j).lazy = true) := by
+  rcases ha.todo_eq with h | h
+  · apply hwt op _ j hj
+    have : op ∈ w.prog.drop s.k := by rw [← h, ht]; simp
+    exact List.mem_of_mem_drop this
+  · rw [h.2] at ht; cases ht
+
 macro "invE_auto" : tactic =>
-  `(tactic| (constructor <;> (try simp only [doSubmit, doDrop, doLdtor, doRet, doPublish, doFdtor, doReady, doMReady, doMsub, doMsuspend,
-      doRegLoad, regFail, regFrom, afterReg, doCurrent, State.word, setWord_cells_word, upd_cexec_word, setWord_pc, setWord_resumed]) <;>
-      (try simp only [State.word] at *) <;>
-      grind [Word.cbs, Word.isResult, selfDone_ne_wake_cell, subNext_ne_wake_cell]))
+  `(tactic| (constructor <;> (try simp only [doSubmit, doDrop, doLdtor, doRet, doPublish, doFdtor, doTdtor, doReady, doMReady, doMsub,
+      doMsuspend, doCurrent, upd_cexec_word, setWord_resumed]) <;> grind))
 
 set_option maxHeartbeats 16000000 in
-theorem invE_step_1 {w s l s'} (ha : InvA w s) (he : InvE w s) (hs : Step s l s')
-    (hl : match l with | .pXchg _ | .envPush _ | .exCall | .exDrop | .ldtor | .ret | .publish _ | .fdtor
-                       | .rdLoad _ | .mload _ | .ready _ | .msub | .msuspend | .regLoad _ _ | .submit _ | .current _ => True
-                       | _ => False) : InvE w s' := by
+theorem invE_step {w s l s'} (hwt : w.WFT) (hi : Inv w s) (he : InvE w s) (hs : Step s l s') : InvE w s' := by
+  have ha := hi.a
   have hw := ha.hw
-  cases he
   cases hs with
-  | pXchg j l f hw hl => have hw' : (s.cells j).word = .open l f := hw; invE_auto
-  | envPush j l f hw hu => have hw' : (s.cells j).word = .open l f := hw; invE_auto
-  | exCall e h => invE_auto
-  | exDrop e h => invE_auto
-  | ldtor h hl => invE_auto
-  | ret h ht => invE_auto
-  | publish r h hr hl => invE_auto
-  | fdtor h hl => invE_auto
-  | rdLoad op rest j x h ht hj hx => invE_auto
-  | mload v h hv => invE_auto
-  | ready x h => cases hb : awaitReady x <;> invE_auto
-  | mready v h => cases hb : decide (v = 1) <;> invE_auto
-  | msub op rest h ht => invE_auto
-  | msuspend op rest h ht => invE_auto
-  | regLoad op rest p j x h ht hj hx => invE_auto
-  | submit e h => invE_auto
-  | current op rest h ht => invE_auto
-  | _ => simp at hl
+  | pXchg j l f hw hl => cases he; invE_auto
+  | envPush j l f hw hu => cases he; invE_auto
+  | envSwap j e hu =>
+      have hl : (w.cell j).lazy = true := by simp [swapAllowed, hw] at hu; exact hu.1
+      cases he
+      constructor <;> (simp only [upd]) <;> grind
+  | fire op rest j p walk ht hw' hp =>
+      cases he
+      simp only [doFire]
+      (repeat' split) <;> (constructor <;> (simp only [upd_cexec_word, setWord_resumed]) <;> grind)
+  | exCall e h => cases he; invE_auto
+  | exDrop e h => cases he; invE_auto
+  | start op rest h ht =>
+      cases he
+      cases hk : op.kind <;> (try (rename_i o; cases o)) <;>
+        (simp only [doStart, regFrom, afterReg, hk, isMulti, startExec, startCnt, selfDone]) <;>
+        (repeat' split) <;> (constructor <;> grind)
+  | rdLoad op rest j x h ht hj hx => cases he; invE_auto
+  | ready x h => cases he; cases hb : awaitReady x <;> invE_auto
+  | mready v h => cases he; cases hb : decide (v = 1) <;> invE_auto
+  | regLoad op rest p j x h ht hj hx =>
+      cases he
+      simp only [doRegLoad, regFail, regFrom, afterReg]
+      (repeat' split) <;> (constructor <;> grind)
+  | casOk op rest p j l f h ht hj hw' hu =>
+      cases he
+      simp only [doCasOk, regFrom, afterReg]
+      (repeat' split) <;> (constructor <;> (simp only [upd_cexec_word, setWord_resumed]) <;> grind)
+  | casRetry op rest p j h ht hj hw' hu => exact he
+  | casFail op rest p j h ht hj hw' =>
+      cases he
+      simp only [regFail, regFrom, afterReg]
+      (repeat' split) <;> (constructor <;> grind)
+  | msub op rest h ht => cases he; invE_auto
+  | mload v h hv => cases he; invE_auto
+  | msuspend op rest h ht =>
+      cases he
+      simp only [doMsuspend]
+      split <;> (constructor <;> grind)
+  | tstore op rest j h ht hj =>
+      have hpk := ha.pc_kind op rest ht
+      rw [h] at hpk
+      have hk : op.kind = .task := by simpa [pcKindOk] using hpk
+      have hlazy : (w.cell j).lazy = true := (wft_lazy hwt ha ht (List.mem_iff_getElem?.mpr ⟨0, hj⟩)).mp hk
+      cases he
+      simp only [doTstore]
+      constructor <;> (simp only [upd]) <;> grind
+  | submit e h => cases he; invE_auto
+  | resume op rest c h ht =>
+      have hcex := he.cexec
+      cases he
+      simp only [doResume]
+      constructor <;> grind [execAfter]
+  | current op rest h ht => cases he; invE_auto
+  | tdtor j h hl hr => cases he; invE_auto
+  | ldtor h hl => cases he; invE_auto
+  | ret h ht => cases he; invE_auto
+  | publish r h hr hl => cases he; invE_auto
+  | fdtor h hl => cases he; invE_auto
 
 end Yaclib.Coro
